@@ -47,8 +47,10 @@ class PureBtor(object):
         return PNode(z3.SignExt(int(n), _bv(a)))
 
 
-def swizzle_forces_target(w, signed, lo, hi, timeout_ms=30000):
-    """(verdict, model) for one (width, signedness, domain [lo,hi]) configuration; verdict 'unsat' = obligation holds"""
+def swizzle_forces_target(w, signed, lo, hi, timeout_ms=30000, ranges=None, pick=0):
+    """(verdict, model) for one (width, signedness, domain [lo,hi]) configuration; verdict 'unsat' = obligation holds.
+    ranges/pick: multi-range domain (ascending disjoint [lo,hi] list) and the index of the range the RNG stub selects;
+    the premise is then f in the union of the ranges, t in the picked range"""
     from vf import symex, e3
     from vsc.model.field_scalar_model import FieldScalarModel
     from vsc.model.solvegroup_swizzler_partsel import SolveGroupSwizzlerPartsel
@@ -63,16 +65,21 @@ def swizzle_forces_target(w, signed, lo, hi, timeout_ms=30000):
         t = symex.SInt(z3.BitVec("t", symex.W), 70)
         class RS(object):            # RNG stub: the drawn target is an arbitrary value of the requested range
             def randint(self, a, b):
+                if ranges is not None and (a, b) == (0, len(ranges) - 1) and not seen.get("picked"):
+                    seen["picked"] = True
+                    return pick
                 assert (a, b) == (lo, hi), (a, b, lo, hi)
                 return t
 
         class Dom(object):
-            range_l = [[lo, hi]]
+            range_l = [[lo, hi]] if ranges is None else [list(r) for r in ranges]
 
         class Bound(object):
             domain = Dom()
-        swz = SolveGroupSwizzlerPartsel(RS(), None)
         seen = {}
+        if ranges is not None:
+            lo, hi = ranges[pick]
+        swz = SolveGroupSwizzlerPartsel(RS(), None)
         ob = swz._build_swizzle_constraints
 
         def spy(fm, bit_pattern, d_width):
@@ -92,9 +99,44 @@ def swizzle_forces_target(w, signed, lo, hi, timeout_ms=30000):
     L, H = z3.BitVecVal(lo, symex.W), z3.BitVecVal(hi, symex.W)
     s = z3.Solver()
     s.set("timeout", timeout_ms)
-    s.add(tz >= L, tz <= H, fint >= L, fint <= H, conj, fint != tz)
+    if ranges is None:
+        indom = z3.And(fint >= L, fint <= H)
+    else:
+        indom = z3.Or(*[z3.And(fint >= z3.BitVecVal(a, symex.W), fint <= z3.BitVecVal(b, symex.W)) for a, b in ranges])
+    s.add(tz >= L, tz <= H, indom, conj, fint != tz)
     r = s.check()
     return str(r), (s.model() if r == z3.sat else None), len(nodes), d_width
+
+
+def replay_swizzle_concrete(w, signed, ranges, pick, t, fval):
+    """replay of a kernel counterexample on the real code with the real Boolector: with the RNG stub returning the concrete
+    range index and target t, the constraints built by create_rand_domain_constraint still admit f == fval (!= t)"""
+    import pyboolector
+    from vsc.model.field_scalar_model import FieldScalarModel
+    from vsc.model.solvegroup_swizzler_partsel import SolveGroupSwizzlerPartsel
+    btor = pyboolector.Boolector()
+    import vsc.model.randomizer as RZ
+    btor.Set_opt(RZ.BTOR_OPT_INCREMENTAL, True)
+    btor.Set_opt(RZ.BTOR_OPT_MODEL_GEN, True)
+    f = FieldScalarModel("f", w, signed, True)
+    f.is_used_rand = True
+    f.build(btor)
+    draws = ([pick] if len(ranges) > 1 else []) + [t]
+
+    class RS(object):
+        def randint(self, a, b):
+            return draws.pop(0)
+
+    class Dom(object):
+        range_l = [list(r) for r in ranges]
+
+    class Bound(object):
+        domain = Dom()
+    swz = SolveGroupSwizzlerPartsel(RS(), None)
+    for e in swz.create_rand_domain_constraint(f, Bound()):
+        btor.Assert(e.build(btor))
+    btor.Assert(btor.Eq(f.var, btor.Const(fval & ((1 << w) - 1), w)))
+    return btor.Sat() == btor.SAT
 
 
 def dist_target_equals(w, signed, timeout_ms=30000):
